@@ -601,9 +601,36 @@ func c15ServiceInfo(c *core.Ctx, reg *types.Named) {
 		sort.Strings(out)
 		return out
 	}
+	// locals that merely name a descriptor field (unary, streams := desc.Methods, desc.Streams)
+	localSel := map[types.Object]string{}
+	ast.Inspect(decl.Body, func(x ast.Node) bool {
+		as, ok := x.(*ast.AssignStmt)
+		if !ok || as.Tok != token.DEFINE || len(as.Lhs) != len(as.Rhs) {
+			return true
+		}
+		for i, l := range as.Lhs {
+			id, isID := l.(*ast.Ident)
+			sel, isSel := as.Rhs[i].(*ast.SelectorExpr)
+			if isID && isSel && info.Defs[id] != nil {
+				localSel[info.Defs[id]] = sel.Sel.Name
+			}
+		}
+		return true
+	})
 	selField := func(e ast.Expr) string {
+		if u, ok := e.(*ast.UnaryExpr); ok && u.Op == token.AND {
+			e = u.X
+		}
+		if ix, ok := e.(*ast.IndexExpr); ok {
+			e = ix.X
+		}
 		if s, ok := e.(*ast.SelectorExpr); ok {
 			return s.Sel.Name
+		}
+		if id, ok := e.(*ast.Ident); ok {
+			if n, has := localSel[info.Uses[id]]; has {
+				return n
+			}
 		}
 		return "?"
 	}
@@ -725,7 +752,42 @@ func c15ServiceInfo(c *core.Ctx, reg *types.Named) {
 			}
 		})
 	}
-	c.Check(okAppend == 2, key+":one-entry-per-element", decl.Pos(), "one append per element in each of the two loops", fmt.Sprintf("expected one append in the Methods loop and one in the Streams loop, found %d", okAppend))
+	if okAppend == 0 {
+		// a list of the final length filled by index: entry i for the i-th method, entry len(methods)+i for the i-th stream
+		plain, offset := 0, 0
+		for _, f := range fnsAll {
+			f := f
+			core.Instrs(f, func(in ssa.Instruction) {
+				st, ok := in.(*ssa.Store)
+				if !ok || core.LoopOf(f)[st.Block()] < 0 {
+					return
+				}
+				ia, ok := st.Addr.(*ssa.IndexAddr)
+				if !ok || !strings.HasSuffix(core.TypeStr(ia.X.Type()), "grpc.MethodInfo") {
+					return
+				}
+				isLen := func(v ssa.Value) bool {
+					call, ok := v.(*ssa.Call)
+					if !ok {
+						return false
+					}
+					b, isB := call.Call.Value.(*ssa.Builtin)
+					return isB && b.Name() == "len"
+				}
+				if bo, isBO := ia.Index.(*ssa.BinOp); isBO && bo.Op == token.ADD && (isLen(bo.X) != isLen(bo.Y)) {
+					offset++
+				} else if _, isBO := ia.Index.(*ssa.BinOp); !isBO || true {
+					if bo, isBO := ia.Index.(*ssa.BinOp); !isBO || (bo.Op == token.ADD && !isLen(bo.X) && !isLen(bo.Y)) {
+						plain++
+					}
+				}
+			})
+		}
+		if plain == 1 && offset == 1 {
+			okAppend = 2
+		}
+	}
+	c.Check(okAppend == 2, key+":one-entry-per-element", decl.Pos(), "one entry per element in each of the two loops (appended, or stored at the element's own index)", fmt.Sprintf("expected one entry per element in the Methods loop and one in the Streams loop, found %d", okAppend))
 }
 
 // c15MethodListFresh: the slice stored as a service's Methods is allocated for
